@@ -74,6 +74,11 @@ def check_reads(rec, tf, exd, mode, lens=None, vals=None):
                     else:
                         for i in ids:
                             _cmp(rec, 'values:eager:raw_scaler_data', sc[i][0], sc[i][1], rsd[i], '%s scaler %d' % (p, i))
+                if len(ids) == 1:
+                    # a raw DAQmx channel with a single scaler: raw_data is that scaler's data
+                    ok, d = rec.guard('eager:raw_data', lambda: ch.raw_data)
+                    if ok:
+                        _cmp(rec, 'values:eager:raw_data', sc[last][0], sc[last][1], d, '%s raw_data (single scaler)' % p)
             ok, d = rec.guard(mode + ':read_data(scaled=False)', lambda: ch.read_data(scaled=False))
             if ok:
                 if not isinstance(d, dict) or sorted(d.keys()) != ids:
@@ -185,6 +190,8 @@ def check(case, rec):
             rec.label('interleaved_flag_set')
         if any(e.get('hdr') != 'daqmx' for e in seg['entries']):
             rec.label('relisted_without_data')
+        if seg.get('trim_raw'):
+            rec.label('short_final_chunk_in_middle_segment')
         if seg.get('meta', True) and not seg.get('newlist', True):
             rec.label('redeclared_without_new_object_list')
         for e in seg_entries(seg):
@@ -248,7 +255,7 @@ def check(case, rec):
 
 @st.composite
 def cases(draw, **kw):
-    fs = draw(daqmx_file(**kw))
+    fs = draw(daqmx_file(short_mid=True, **kw))
     return {'fs': fs, 'cuts': draw(st.integers(0, 2)) == 0}
 
 
